@@ -98,6 +98,22 @@ PROPS["C05"] = {
     "technique": "Lean 4 invariant proofs over route insertion (noJunk, present, distinct heads) + soundness/completeness of the unrolled matcher; model=code by tree dumps and by differential runs against regenerated, compiled routers",
 }
 
+PROPS["C09"] = {
+    "lean_modules": ["Ogen.Props.C09"],
+    "suites": ["c09"],
+    "timeout": 3600,
+    "trusted_base": [
+        KERNEL, HARNESS, GENCHECK,
+        "statements in lean/Ogen/Props/C09.lean (AltAccepted, Outcome) and the model Sec.* (SecurityMask_proof, SecurityHandler_proof), hand-written from internal/bitset, gen/gen_security.go and the security block of gen/_template/handlers.tmpl",
+        "tie = (a) the IR's requirement masks of every generated operation compared with the model's maskOf and the scheme index assignment compared with first-occurrence order, (b) regenerated, compiled servers with a scripted SecurityHandler: handler-invoked/401 compared with secDecide for all 4^n outcome vectors (n ≤ 4) and random vectors up to 20 schemes, incl. global requirement, operation-level override and `security: []`",
+        "credential extraction per scheme kind (apiKey header/query/cookie, basic, bearer, oauth2+scopes) is NOT modelled: SecuritySource → SecurityHandler equality is checked on the implementation through the generated client over a real HTTP round trip",
+    ],
+    "assumptions": ["scheme outcomes are what the user's SecurityHandler returns; 'presented credentials' = the header/query/cookie is present"],
+    "level_text": "full safety / partial liveness on the model: mask_semantics for any number of schemes, satisfied_iff, handler_only_if (handler ⇒ some alternative fully accepted and no scheme error), handler_if_partial (needs 'no scheme handler returned an error'; the full converse is refuted by the decided witnesses k2, known finding K2), else_unauthorized, anonymous. Credential round trip: implementation-only, with known findings K10 (cookie apiKey bytes dropped), K11 (basic user with ':'), K4 (header OWS).",
+    "level_note": "trusted: Lean kernel, statements, hand-written model + ties, gencheck pipeline, net/http. Known findings K2, K10, K11, K4.",
+    "technique": "Lean 4 proofs of bit-mask arithmetic for arbitrary-length bitsets and of the requirement decision logic; model=code by IR mask comparison and differential runs against regenerated servers with scripted scheme outcomes",
+}
+
 # properties not claimed, with the reason (kept current; see DESIGN.md §7)
 NOT_CLAIMED = {
     "C10": "not applicable: determinism/race-freedom of generation lives in Go map iteration order, goroutine scheduling and the memory model; no executable model separate from the runtime can express it (DESIGN.md §7)",
